@@ -95,14 +95,13 @@ def make_poly_body(pname, quat_key, normal_mode, kab, cls_name, mode):
             pts = [[off[k] + u * e1[k] + w * e2[k] for k in range(3)] for u, w in P2]
         if ctx is not None:
             ctx.pw_mode = True
+        arg = H.arr(pts[0]) if mode == "single3" else H.arr(pts)
         try:
-            if mode == "single3":
-                res = poly.is_inside(H.arr(pts[0]))
-            else:
-                res = poly.is_inside(H.arr(pts))
+            res = poly.is_inside(arg)
         finally:
             if ctx is not None:
                 ctx.pw_mode = False
+        H.claim_all_eq("points_unchanged", list(arg) if mode == "single3" else [list(row) for row in arg], pts[0] if mode == "single3" else pts)
         H.claim("result_shape", len(res) == npts)
         for i, (u, w) in enumerate(P2):
             ins, onb = _inplane_oracle(H, base, u, w)
@@ -140,11 +139,18 @@ def circle_body(H, V):
 
     r, cx, cy, cz, px, py = V["r"], V["cx"], V["cy"], V["cz"], V["px"], V["py"]
     s = Circle(r, [cx, cy, cz])
-    res = s.is_inside(H.arr([[px, py, cz]]))
+    pts = H.arr([[px, py, cz]])
+    res = s.is_inside(pts)
     d2 = (px - cx) * (px - cx) + (py - cy) * (py - cy)
     H.claim("circle.inside<=>oracle", H.or_(d2 == r * r, H.iff(res[0], d2 < r * r)))
-    res1 = s.is_inside(H.arr([px, py, cz]))
+    # the caller's array is an input, not scratch space: unchanged, and asking again with the same array (or a row of it) agrees
+    H.claim_all_eq("circle.points_unchanged", [list(row) for row in pts], [[px, py, cz]])
+    res2 = s.is_inside(pts)
+    H.claim("circle.same_array_again", H.or_(d2 == r * r, H.iff(res2[0], d2 < r * r)))
+    row = pts[0]
+    res1 = s.is_inside(row)
     H.claim("circle.single_form", H.or_(d2 == r * r, H.iff(res1[0], d2 < r * r)))
+    H.claim_all_eq("circle.row_unchanged", list(row), [px, py, cz])
 
 
 def ellipse_body(H, V):
@@ -152,11 +158,13 @@ def ellipse_body(H, V):
 
     a, b, cx, cy, cz, px, py = V["a"], V["b"], V["cx"], V["cy"], V["cz"], V["px"], V["py"]
     s = Ellipse(a, b, [cx, cy, cz])
-    res = s.is_inside(H.arr([[px, py, cz]]))
+    pts = H.arr([[px, py, cz]])
+    res = s.is_inside(pts)
     dx, dy = px - cx, py - cy
     q = dx * dx * b * b + dy * dy * a * a
     rhs = a * a * b * b
     H.claim("ellipse.inside<=>oracle", H.or_(q == rhs, H.iff(res[0], q < rhs)))
+    H.claim_all_eq("ellipse.points_unchanged", [list(row) for row in pts], [[px, py, cz]])
 
 
 def obligations(tier, seed):
